@@ -1,9 +1,8 @@
 SPECIFICATION TraceSpec
 CONSTANTS
   Blocks = {}
-  MathNames = {"sqrt", "exp", "log", "floor", "pi"}
+  MathNames = {"sqrt", "exp", "log", "floor", "pi", "tanh", "sinh", "cosh", "atan2", "log1p", "expm1", "log2", "hypot", "e", "tau", "erf", "copysign", "degrees", "gamma", "trunc", "fabs"}
   ResidChoices = {TRUE, FALSE}
-  MaxGenerations = 2
   MaxGenerations = 2
   AsFound_KUndefined = FALSE
   AsFound_ChainedLagNoSeries = FALSE
